@@ -434,10 +434,18 @@ func (x *runner) probeXCrypto(g *gen) {
 			break
 		}
 	}
+	for _, s := range append([][]byte{}, streams...) {
+		streams = append(streams, append(append([]byte{}, s...), frame([]byte{yubiagent.AgentMessageRequestIdentities})...))
+	}
 	for _, s := range streams {
 		o := serveStream(x.fake, s, 20*time.Second, false)
 		if o.panicked || o.hung {
 			c.Native("ServeAgent crashed or hung on a cut add-identity request: "+strings.SplitN(o.panicMsg, "\n", 2)[0], map[string]interface{}{"stream_hex": hex.EncodeToString(s)})
+			return
+		}
+		if nreq := len(splitFrames(s)); o.err == nil && len(o.frames) < nreq {
+			c.Native(fmt.Sprintf("ServeAgent neither answered a cut add-identity request nor ended the connection with an error: %d complete request frames, %d response frames, returned nil",
+				nreq, len(o.frames)), map[string]interface{}{"stream_hex": hex.EncodeToString(s)})
 			return
 		}
 		c.NativeCheck(1)
@@ -669,10 +677,16 @@ func (x *runner) emit(class string, exact bool, ag yubiagent.YubiAgent, stream [
 			// error instead (fixed: 19af1af).  No reply is owed, so the stream is judged by the no-crash oracle only.
 			c.Stat("streams with a frame on which the x/crypto agent server itself panics (no-crash oracle only)")
 			o := serveStream(ag, stream, 20*time.Second, false)
-			if o.panicked || o.hung {
+			nreq := len(splitFrames(stream))
+			switch {
+			case o.panicked || o.hung:
 				c.Native("ServeAgent crashed or hung on a malformed standard request ("+class+"): "+strings.SplitN(o.panicMsg, "\n", 2)[0],
 					map[string]interface{}{"stream_hex": short(stream)})
-			} else {
+			case exact && o.err == nil && len(o.frames) < nreq:
+				// "it either answers or ends that connection with an error": swallowing the request and carrying on is neither
+				c.Native(fmt.Sprintf("ServeAgent neither answered a request nor ended the connection with an error (%s): %d complete request frames, %d response frames, returned nil",
+					class, nreq, len(o.frames)), map[string]interface{}{"stream_hex": short(stream)})
+			default:
 				c.NativeCheck(1)
 			}
 			return observation{}
